@@ -1226,3 +1226,129 @@ def m_opt_filter(c):
             if not keep:
                 c.I.write_place(s2, c.frame, c.term["dest"], opt_none())
                 c.results.append(s2)
+
+
+@model("core::num::checked_ilog2")
+def m_checked_ilog2(c):
+    """None exactly for 0; otherwise Some(ilog2), one successor state per bit-length class (as ilog2)"""
+    x, xl = c.arg_int(0)
+    if x is None:
+        c.ret_top()
+        return
+    if x.lo <= 0:
+        s0 = c.fork()
+        try:
+            _, xloc = c.arg(0, s0)
+            if xloc is not None:
+                c.I.assume_var(s0, xloc, 0, True)
+            c.ret(opt_none(), st=s0)
+        except Infeasible:
+            pass
+    lo = max(x.lo, 1)
+    if x.hi < lo:
+        return
+    klo, khi = lo.bit_length() - 1, x.hi.bit_length() - 1
+    ks = list(range(klo, khi + 1))
+    for n, k in enumerate(ks):
+        s = c.st if n == len(ks) - 1 else c.fork()
+        try:
+            if len(ks) > 1 or x.lo <= 0:
+                a, b = max(lo, 1 << k), min(x.hi, (1 << (k + 1)) - 1)
+                if xl is not None and not xl.is_const():
+                    s.add_le(xl - b)
+                    s.add_le(LinForm.constant(a) - xl)
+                s.tag = s.tag + (("ilog2", c.frame.uid, c.bb, k),)
+            c.ret(opt_some(Int.const(k, 32, False)), st=s)
+        except Infeasible:
+            pass
+
+
+def _range_values(it):
+    """the values a modelled integer range iterator will hand out, when there are at most 64 of them and they are known"""
+    b = _int_range_bounds(it)
+    if b is None or b[1] - b[0] > 64:
+        return None
+    first, last, proto = b
+    return [Int.const(v, proto.bits, proto.signed) for v in range(first, last + 1)]
+
+
+def _pred_on(c, clo, v, by_ref):
+    """the boolean a predicate closure gives for the constant v (⊤ bool when undecided); its effects are discarded"""
+    s = c.st.copy()
+    arg = v
+    if by_ref:
+        cell = new_tmp(c, s, v, ("rangeitem", v.lo))
+        arg = Ref(cell, ())
+    r = c.I.call_closure(c, clo, [(arg, None)], st=s)
+    out = None
+    for (s2, rv, rloc, nf) in (r or []):
+        b = rv if isinstance(rv, Int) and rv.bits == 1 else Int.boolean()
+        out = b if out is None else Int(min(out.lo, b.lo), max(out.hi, b.hi), 1, False)
+    return out if out is not None else Int.boolean()
+
+
+_prev_any_all = MODELS.get("std::iter::Iterator::any")
+_prev_find = MODELS.get("std::iter::Iterator::find")
+_prev_position = MODELS.get("std::iter::Iterator::position")
+
+
+@model("std::iter::Iterator::any", "std::iter::Iterator::all")
+def m_any_all_range(c):
+    """any / all over a small constant integer range: the predicate is evaluated for each value; slices go to the slice model"""
+    r, _ = c.arg(0)
+    it, loc = c.deref(r)
+    if not isinstance(it, (Iter, Struct)):
+        it = r if isinstance(r, (Iter, Struct)) else None
+    vals = _range_values(it)
+    if vals is None:
+        return _prev_any_all(c)
+    clo, _ = c.arg(1)
+    is_any = c.name.endswith("any")
+    decided = None
+    unknown = False
+    for v in vals:
+        b = _pred_on(c, clo, v, False)
+        if b.is_const():
+            if is_any and b.lo == 1:
+                decided = 1
+                break
+            if (not is_any) and b.lo == 0:
+                decided = 0
+                break
+        else:
+            unknown = True
+    if decided is None and not unknown:
+        decided = 0 if is_any else 1
+    c.ret(Int.const(decided, 1, False) if decided is not None else Int.boolean())
+
+
+@model("std::iter::Iterator::position")
+def m_find_range(c):
+    """find / position over a small constant integer range with a predicate decided for each value; everything else goes to the slice models"""
+    r, _ = c.arg(0)
+    it, loc = c.deref(r)
+    if not isinstance(it, (Iter, Struct)):
+        it = r if isinstance(r, (Iter, Struct)) else None
+    vals = _range_values(it)
+    prev = _prev_find if c.name.endswith("find") else _prev_position
+    if vals is None:
+        return prev(c) if prev is not None else NotImplemented
+    clo, _ = c.arg(1)
+    is_find = c.name.endswith("find")
+    cands = []
+    for i, v in enumerate(vals):
+        b = _pred_on(c, clo, v, is_find)
+        if b.is_const() and b.lo == 0:
+            continue
+        cands.append((i, v, b))
+        if b.is_const() and b.lo == 1:
+            break
+    definite = bool(cands) and cands[-1][2].is_const() and cands[-1][2].lo == 1
+    outs = []
+    for i, v, b in cands:
+        outs.append(opt_some(v if is_find else Int.const(i, 64, False)))
+    if not definite:
+        outs.append(opt_none())
+    for n, val in enumerate(outs):
+        s = c.st if n == len(outs) - 1 else c.fork()
+        c.ret(val, st=s)
